@@ -574,8 +574,12 @@ def sendEvent (bnd : Bytes) (st : State) (ev : Event) : Except String (Bytes × 
   | .preamble d => if st == .preamble then .ok (d, .part) else .error "ValueError"
   | .field n h => part n none h
   | .file n f h => part n (some f) h
-  | .data d _ =>
-    if st == .dataStart then .ok (if d.length > 0 then crlf ++ d else d, .data)
+  | .data d more =>
+    if st == .dataStart then
+      -- the line break that starts the body is written with the first non-empty data; an empty
+      -- chunk with more_data keeps the encoder at the start of the body
+      if d.length > 0 then .ok (crlf ++ d, .data)
+      else .ok (d, if more then .dataStart else .data)
     else if st == .data then .ok (d, .data)
     else .error "ValueError"
   | .epilogue d => .ok (crlf ++ 45 :: 45 :: bnd ++ [45, 45] ++ crlf ++ d, .complete)
